@@ -128,9 +128,9 @@ func (s *ExpressionVisitor) EnterOC_NotExpression(ctx *parser.OC_NotExpressionCo
 }
 
 func (s *ExpressionVisitor) ExitOC_NotExpression(ctx *parser.OC_NotExpressionContext) {
-	if len(ctx.AllNOT()) > 0 {
+	if notTokens := len(ctx.AllNOT()); notTokens > 0 {
 		visitor := s.ctx.Exit().(*NegationVisitor)
-		s.Expression = visitor.Negation
+		s.Expression = nestNegations(visitor.Negation, notTokens)
 	}
 }
 
